@@ -36,6 +36,7 @@ COMPONENTS = {
 }
 EXPECTED_PROBES = ["write_pandas", "write_dask", "read_pandas", "read_dask", "read_dask_list",
                    "read_dask_list_unsorted", "read_dask_list_mixing_glob_and_path",
+                   "twin_slices_of_one_parent_array",
                    "read_dask_glob", "columns_projection", "nonfloat64_subtype",
                    "sliced_or_concat_backing", "ge_11_partitions"]
 
@@ -92,8 +93,13 @@ def cases(tier, base_seed):
             else:
                 steps.append({"op": "read_dask", "how": "mixed", "ds": ["D0", "D1", "D2"],
                               "glob_first": rng.random() < 0.5, "columns": proj()})
-        yield {"seed": seed, "frame": spec, "steps": steps, "sim": e1.gen_sim_cfg(rng),
-               "store": e1.gen_store_cfg(rng)}
+        twins = None
+        if n >= 4 and rng.random() < 0.2:
+            # two frames whose geometry columns are equally long slices of ONE parent array,
+            # equal in everything else, both alive as Dask frames at the same time
+            twins = {"k": rng.randint(1, n // 2)}
+        yield {"seed": seed, "frame": spec, "steps": steps, "twins": twins,
+               "sim": e1.gen_sim_cfg(rng), "store": e1.gen_store_cfg(rng)}
         i += 1
 
 
@@ -155,6 +161,12 @@ def _guard(what, fn, sig):
 
 
 def _drive(case, root, fs, probes, sig):
+    _drive_steps(case, root, fs, probes, sig)
+    if case.get("twins"):
+        _twins(case, root, fs, probes, sig)
+
+
+def _drive_steps(case, root, fs, probes, sig):
     from spatialpandas import GeoDataFrame
     from spatialpandas.dask import DaskGeoDataFrame
     from spatialpandas.io import read_parquet, read_parquet_dask, to_parquet
@@ -246,6 +258,32 @@ def _drive(case, root, fs, probes, sig):
             order = dss if step["how"] in ("list", "mixed") else sorted(dss)
             rows = [r for d in order for r in model[d]]
             _compare(got, spec, rows, cols, f"read_parquet_dask[{step['how']}]", GeoDataFrame, sig)
+
+
+def _twins(case, root, fs, probes, sig):
+    import dask.dataframe as dd
+    from spatialpandas import GeoDataFrame
+    from spatialpandas.io import read_parquet_dask
+    spec = case["frame"]
+    k = case["twins"]["k"]
+    c = spec["cols"][0]
+    parent = gen.build_array(c["kind"], c["values"][: 2 * k], c["subtype"])
+    fa = GeoDataFrame({"g": parent[:k]})
+    fb = GeoDataFrame({"g": parent[k:2 * k]})
+    probes["twin_slices_of_one_parent_array"] = 1
+    da = dd.from_pandas(fa, npartitions=1)
+    db = dd.from_pandas(fb, npartitions=1)           # `da` is still alive here
+    pa_, pb_ = os.path.join(root, "twin_a"), os.path.join(root, "twin_b")
+    _guard("to_parquet (twin a)", lambda: da.to_parquet("simfs://" + pa_), sig)
+    _guard("to_parquet (twin b)", lambda: db.to_parquet("simfs://" + pb_), sig)
+    for path, lo, name in ((pa_, 0, "a"), (pb_, k, "b")):
+        got = _guard("read_parquet_dask (twin)",
+                     lambda: read_parquet_dask(path, filesystem=fs).compute(), sig)
+        g = [models.freeze(v) for v in models.array_values(got["g"].array)]
+        w = [models.freeze(v) for v in c["values"][lo:lo + k]]
+        if g != w:
+            raise Bad("rows@twin-slices", f"frame {name} (rows {lo}..{lo + k - 1} of one parent "
+                      f"array) was written and read back as {g[:3]}, expected {w[:3]}")
 
 
 def _compare(got, spec, rows, cols, what, geo_type, sig):
